@@ -88,7 +88,7 @@ def replay_pass(rep, tier, cases, first):
     run's reported rule applications are re-validated one by one and the run is re-played with the
     plain simulator in between; whatever the replay ends in is TRUE of the L0 machine
     (BB/Props/C02.lean), with the true step count - no step budget, only a per-application one."""
-    budget = 300_000 if tier == "thorough" else 50_000
+    budget = 60_000 if tier == "thorough" else 20_000
     napps = 400 if tier == "thorough" else 150
     # applications are needed only for runs that applied a rule (known from the first pass)
     sel = list(cases)
@@ -342,8 +342,11 @@ def check(rep, tier, seed, replay):
         else:
             judged += 1
             distinct.add(line.split(" | ", 1)[1] + "|" + res)
+    core.log(f"[C02] correspondence + L0 oracle done, {len(lines)} cases")
     replay_pass(rep, tier, cases, impl[len(lines) - len(cases):])
+    core.log("[C02] replay pass done")
     confirm_infrul(rep, tier, lines, impl)
+    core.log("[C02] infrul confirmation done")
     # known finding F9 is about the release build of the Python extension, not reachable here
     for m in mism[:100]:
         rep.violation("correspondence", m, found_input=False)
